@@ -8,7 +8,7 @@ CONSTANTS
   Policies = {0, 1, 4096, 1000000}
   MaxOps = 4
   ByteCaps = {0, 3}
-INVARIANT Inv
-PROPERTIES PeekNeverAdvances StickyError
+INVARIANT Inv CoreInvHolds
+PROPERTIES PeekNeverAdvances StickyError RefinesCore
 VIEW View
 CHECK_DEADLOCK FALSE
